@@ -233,6 +233,50 @@ CONF_NAMES = ['O_component_ids.json', 'B_component_ids.json', 'x_component_ids.j
               'README', 'OO_component_ids.json', 'B_component_ids.JSON', 'O_component_ids.jso']
 
 
+def check_damaged_conf(ck, rng, n):
+    """a configuration directory in which some component-id file cannot be read (truncated, not JSON, not UTF-8, a directory of that
+    name): whatever the loader makes of it, the SAME PEL decoded first, second and third in one process must give the same result"""
+    import pelbuild
+    from pel.peltool import comp_id
+    tmp = tempfile.mkdtemp(prefix='c19bad_')
+    old_root = comp_id.pelConfigRootPath
+    try:
+        for k in range(n):
+            root = os.path.join(tmp, 'd%d' % k)
+            os.makedirs(root)
+            good = {'O': {'2000': 'bmc error logging', '1234': 'twelve'}, 'B': {'2000': 'hb'}, 'H': {'4142': 'phyp?'}}
+            names = ['O', 'B', 'H']
+            rng.shuffle(names)
+            bad = names[0]
+            how = rng.choice(['truncated', 'not-json', 'not-utf8', 'empty', 'directory'])
+            for c in names:
+                path = os.path.join(root, c + '_component_ids.json')
+                if c != bad:
+                    json.dump(good[c], open(path, 'w'))
+                elif how == 'directory':
+                    os.makedirs(path)
+                else:
+                    open(path, 'wb').write({'truncated': b'{"2000": ', 'not-json': b'2000 = bmc', 'not-utf8': b'{"2000": "\xff\xfe"}', 'empty': b''}[how])
+            creator = rng.choice([c for c in 'OBH' if c != bad] + ['O', bad])
+            pel = pelbuild.pel([pelbuild.UH(comp=0x2000), pelbuild.SRC(comp=0x1234)], creator=creator.encode(), eid=0x50000200 + k, comp=0x2000)
+            comp_id.pelConfigRootPath = root
+            apel.reset_comp_ids()
+            outs = []
+            for i in range(3):
+                r = apel.real_decode(pel)
+                outs.append(list(r[:3]) if r[0] != 'doc' else ['doc', r[1], r[4]])
+            ck.case(key=('damaged-conf', how, bad, creator, tuple(os.listdir(root))), sample={'damaged_component_id_file': bad, 'how': how, 'creator': creator, 'outcomes': [o[0] for o in outs]} if k < 2 else None)
+            ck.count('damaged configuration file (%s): first decode %s' % (how, outs[0][0]))
+            if not (outs[0] == outs[1] == outs[2]):
+                ck.fail('the result of a decode depends on what was decoded before it',
+                        {'op': 'history-conf', 'data_hex': pel.hex(), 'configuration_directory': sorted(os.listdir(root)), 'damaged_file': bad + '_component_ids.json',
+                         'how': how, 'listdir_order': os.listdir(root), 'first': str(outs[0])[:200], 'second': str(outs[1])[:200], 'third': str(outs[2])[:200]}, 'history_dependence_conf')
+    finally:
+        comp_id.pelConfigRootPath = old_root
+        apel.reset_comp_ids()
+        shutil.rmtree(tmp, ignore_errors=True)
+
+
 def check_loader(ck, rng, n):
     from pel.peltool import comp_id
     watch = cachewatch.Watch().install()
@@ -371,6 +415,7 @@ def run(tier, seed):
         env_on.install()
         try:
             check_loader(ck, rng, 60 if thorough else 15)
+            check_damaged_conf(ck, rng, 40 if thorough else 12)
         finally:
             env_on.uninstall()
         # ---- directory order: -a vs per-file -f, -a vs -a -r
